@@ -433,6 +433,33 @@ class AnnealResults(list):
             res = AnnealResults(res)
         return res
 
+    def __setitem__(self, index, value):
+        """setitem.
+
+        Assign to an index or a slice, keeping ``self.best`` correct.
+
+        Parameters
+        ----------
+        index : int or slice.
+        value : AnnealResult object, or iterable of them if index is a slice.
+
+        """
+        super().__setitem__(index, value)
+        self.best = _recompute_best(self)
+
+    def __delitem__(self, index):
+        """delitem.
+
+        Delete an index or a slice, keeping ``self.best`` correct.
+
+        Parameters
+        ----------
+        index : int or slice.
+
+        """
+        super().__delitem__(index)
+        self.best = _recompute_best(self)
+
     def clear(self):
         """clear.
 
